@@ -76,6 +76,66 @@ pub fn c02(out: &mut Vec<String>, rng: &mut Rng, tier: &str) {
         }
         out.push(format!("{} => {} | {} | {} | {}", l, o1, o2, o3, o4));
     }
+    // running Stats driven by a sequence of operations (chunks on a state that already holds counts)
+    let reps = if tier == "thorough" { 3000 } else { 400 };
+    for _ in 0..reps {
+        let conf = rand_conf(rng);
+        let mut toks: Vec<String> = Vec::new();
+        let mut s = proportion::Stats::default();
+        let bits = |rng: &mut Rng, n: usize| -> Vec<bool> { let p = rng.unit(); (0..n).map(|_| rng.unit() < p).collect() };
+        let enc_bits = |v: &Vec<bool>| -> String { if v.is_empty() { "-".to_string() } else { v.iter().map(|x| if *x { '1' } else { '0' }).collect() } };
+        let steps = rng.range(2, 7);
+        for _ in 0..steps {
+            match rng.below(8) {
+                0 => {
+                    let n = rng.range(0, 40) as usize;
+                    let k = rng.range(0, n as i64) as usize;
+                    s = proportion::Stats::new(n, k);
+                    toks.push(format!("N {} {}", n, k));
+                }
+                1 | 2 => {
+                    let nb = rng.range(0, 30) as usize;
+                    let v = bits(rng, nb);
+                    s.extend(&v);
+                    toks.push(format!("X {}", enc_bits(&v)));
+                }
+                3 => {
+                    let nb = rng.range(0, 30) as usize;
+                    let v = bits(rng, nb);
+                    let d: Vec<i64> = v.iter().map(|x| if *x { 1 } else { 0 }).collect();
+                    s.extend_if(&d, |x| *x == 1);
+                    toks.push(format!("I {}", enc_bits(&v)));
+                }
+                4 => {
+                    s.add_success();
+                    toks.push("S".into());
+                }
+                5 => {
+                    s.add_failure();
+                    toks.push("F".into());
+                }
+                6 => {
+                    let n = rng.range(0, 40) as usize;
+                    let k = rng.range(0, n as i64) as usize;
+                    if rng.coin() {
+                        s += proportion::Stats::new(n, k);
+                        toks.push(format!("P {} {}", n, k));
+                    } else {
+                        s = s + proportion::Stats::new(n, k);
+                        toks.push(format!("Q {} {}", n, k));
+                    }
+                }
+                _ => {
+                    let nb = rng.range(0, 30) as usize;
+                    let v = bits(rng, nb);
+                    s = proportion::Stats::from_iter(v.iter().cloned());
+                    toks.push(format!("R {}", enc_bits(&v)));
+                }
+            }
+        }
+        let o = guarded(|| enc_cires(&s.ci(conf)));
+        out.push(format!("C02 pseq p {} {} => {} {} | {}", enc_conf(&conf), toks.join(" "), s.population(), s.successes(), o));
+    }
     // success-ratio form: every k/n for small n, and arbitrary rates
     let rmax = if tier == "thorough" { 2000 } else { 250 };
     for n in 1..=rmax {
@@ -127,6 +187,13 @@ pub fn c17(out: &mut Vec<String>, rng: &mut Rng, tier: &str) {
             let kind = rng.below(3);
             let (c1, c2) = (conf_of(kind, l1), conf_of(kind, l2));
             out.push(format!("C17 rel p wider {} {} {} {} {} {} => {} | {}", enc_conf(&c1), n, k, enc_conf(&c2), n, k, w(c1, n, k), w(c2, n, k)));
+            if (n + k) % 3 == 0 {
+                // levels below 1/2 as well (negative critical values for the one-sided kinds)
+                let l1 = 0.001 + rng.unit() * 0.49;
+                let l2 = l1 + (0.9999 - l1) * (0.02 + 0.9 * rng.unit());
+                let (c1, c2) = (conf_of(kind, l1), conf_of(kind, l2));
+                out.push(format!("C17 rel p wider {} {} {} {} {} {} => {} | {}", enc_conf(&c1), n, k, enc_conf(&c2), n, k, w(c1, n, k), w(c2, n, k)));
+            }
         }
     }
     // small numbers of successes / failures in large populations (where approximations are tempting),
